@@ -8,6 +8,8 @@
 //                        length 3 incl. an object compared with itself and with a copy (NaN != NaN also then)
 //   std_elements         static_vector<std::string,6> / stack: every 5-op history over push/insert/emplace/erase/erase(c,v)/
 //                        erase_if/swap/copy-assign/resize against std::vector<std::string> (ADL must not break the calls)
+//   throwing_copy        (normal build) copy construction of inplace_vector / static_vector whose k-th element copy throws:
+//                        nothing of the destination alive afterwards, no destructor on a never-constructed slot
 //   copy_move            copy/move construction and assignment of static_vector / inplace_vector / stack over a tracked
 //                        non-trivial element from every fill level, result compared with std::vector + lifetime registry
 //                        (the uninitialized_copy/move algorithms behind them have a separate no-exceptions branch)
@@ -348,8 +350,109 @@ auto run_std_elements(Case const& k) -> std::string
     return "";
 }
 
+// ---------------------------------------------------------------- throwing_copy (builds with exceptions only)
+// An element whose copy constructor throws at a generated position: after the exception nothing of the destination may be
+// alive, no destructor may have run on a slot that never held an object, and the source is unchanged.
+#if defined(__cpp_exceptions)
+struct Thrower {
+    static inline Thrower const* live[32]{};
+    static inline int nlive     = 0;
+    static inline int countdown = -1;
+    static inline char const* error = nullptr;
+    int v{0};
+    static void reset()
+    {
+        for (auto& l : live) { l = nullptr; }
+        nlive     = 0;
+        countdown = -1;
+        error     = nullptr;
+    }
+    void enter()
+    {
+        for (auto* l : live) {
+            if (l == this) {
+                error = "constructor ran on a slot that already holds a live object";
+                return;
+            }
+        }
+        for (auto& l : live) {
+            if (l == nullptr) {
+                l = this;
+                ++nlive;
+                return;
+            }
+        }
+    }
+    explicit Thrower(int x) : v{x} { enter(); }
+    Thrower(Thrower const& o) : v{o.v}
+    {
+        if (countdown == 0) {
+            countdown = -1;
+            throw 42;
+        }
+        if (countdown > 0) { --countdown; }
+        enter();
+    }
+    auto operator=(Thrower const&) -> Thrower& = default;
+    ~Thrower()
+    {
+        for (auto& l : live) {
+            if (l == this) {
+                l = nullptr;
+                --nlive;
+                return;
+            }
+        }
+        error = "destructor ran on a slot that never held an object (or twice)";
+    }
+};
+template <typename V, typename Push>
+auto run_throwing_owner(char const* name, Case const& k, Push push) -> std::string
+{
+    Thrower::reset();
+    std::string err;
+    {
+        auto const n        = k.a % 5;
+        auto const throw_at = static_cast<int>(k.b % 6); // >= n: nothing throws
+        V src{};
+        for (std::uint32_t i = 0; i < n; ++i) { push(src, static_cast<int>(10 + i)); }
+        int const before = Thrower::nlive;
+        bool caught      = false;
+        Thrower::countdown = throw_at < static_cast<int>(n) ? throw_at : -1;
+        try {
+            V c(src);
+            Thrower::countdown = -1;
+            if (c.size() != n) { err = std::string(name) + ": copy has size " + std::to_string(c.size()) + ", expected " + std::to_string(n); }
+            if (err.empty() && Thrower::nlive != before + static_cast<int>(n)) { err = std::string(name) + ": copy holds " + std::to_string(Thrower::nlive - before) + " live elements, expected " + std::to_string(n); }
+        } catch (int) {
+            caught = true;
+        }
+        Thrower::countdown = -1;
+        if (err.empty() && Thrower::error != nullptr) { err = std::string(name) + ": copy construction with the " + std::to_string(throw_at + 1) + ". element copy throwing: " + Thrower::error; }
+        if (err.empty() && caught != (throw_at < static_cast<int>(n))) { err = std::string(name) + ": the exception of the element's copy constructor was not propagated"; }
+        if (err.empty() && Thrower::nlive != before) { err = std::string(name) + ": after the copy (thrown: " + std::to_string(caught) + ") " + std::to_string(Thrower::nlive - before) + " element(s) of the destination are still alive"; }
+        for (std::uint32_t i = 0; err.empty() && i < n; ++i) {
+            if (src[i].v != static_cast<int>(10 + i)) { err = std::string(name) + ": the source changed"; }
+        }
+    }
+    if (err.empty() && Thrower::nlive != 0) { err = std::string(name) + ": " + std::to_string(Thrower::nlive) + " element(s) alive after the owners were destroyed"; }
+    if (err.empty() && Thrower::error != nullptr) { err = std::string(name) + ": " + Thrower::error; }
+    return err;
+}
+auto run_throwing(Case const& k) -> std::string
+{
+    if (k.fam == 0) {
+        return run_throwing_owner<etl::inplace_vector<Thrower, 4>>("inplace_vector<throwing copy,4>", k, [](auto& v, int x) { v.unchecked_emplace_back(x); });
+    }
+    return run_throwing_owner<etl::static_vector<Thrower, 4>>("static_vector<throwing copy,4>", k, [](auto& v, int x) { v.emplace_back(x); });
+}
+#else
+auto run_throwing(Case const&) -> std::string { return ""; }
+#endif
+
 auto run(std::string const& sub, Case const& k) -> std::string
 {
+    if (sub == "throwing_copy") { return run_throwing(k); }
     if (sub == "std_elements") { return run_std_elements(k); }
     if (sub == "erase_heterogeneous") { return run_erase(k); }
     if (sub == "float_compare") { return run_float(k); }
@@ -386,6 +489,9 @@ void vf_run(vf::Ctx& c)
     sweep("float_compare", 2, 5 * 64, 5 * 64, [](Case const& k) { return k.a % 5 >= 1 && k.b % 5 >= 1; });
     sweep("copy_move", 12, 5, 5, [](Case const& k) { return k.a % 5 >= 2; });
     sweep("uninitialized", 3, 6, 1, [](Case const& k) { return k.a % 6 >= 2; });
+#if defined(__cpp_exceptions)
+    sweep("throwing_copy", 2, 5, 6, [](Case const& k) { return static_cast<int>(k.b % 6) < static_cast<int>(k.a % 5); });
+#endif
     sweep("std_elements", 1, 9 * 9 * 9 * 9 * 9, 3, [](Case const& k) { return k.a % 9 != 8; });
 #if defined(__cpp_exceptions)
     vf::label("built without exceptions (library's no-exceptions branches)", false);
